@@ -6,7 +6,8 @@ MENU = ["bool", "u8", "u16", "u32", "u64", "i8", "i16", "i32", "i64", "str",
         "dict(u8,bool)", "dict(i16,seq(str))", "dict(str,u8)", "dict(bool,dict(u8,u8))",
         "bdict(str,i32)", "bdict(u8,seq(bdict(u8,bool)))", "seq(dict(u8,u8))", "bdict(i64,u64)"]
 EXTRA = ["varuint", "varint", "size", "f32", "f64"]          # encoder methods / floats as bit patterns
-DEC_ONLY = ["varint32", "varuint32", "skiptags"]
+VAR_AT = ["varint@u64", "varint@usize", "varint@u8", "varint@i8", "varint@u16", "varint@i16", "varuint@i8", "varuint@u16", "varuint@i64"]
+DEC_ONLY = ["varint32", "varuint32", "skiptags"] + VAR_AT
 
 UNS = {"u8": 8, "u16": 16, "u32": 32, "u64": 64, "f32": 32, "f64": 64}
 SIG = {"i8": 8, "i16": 16, "i32": 32, "i64": 64}
